@@ -158,4 +158,4 @@ Proof. vm_compute. reflexivity. Qed.
              extra={"histories": len(hists), "fresh_process_replays": len(jobs), "traces_validated_against_impl": len(hists)},
              assumptions=["purity of the planner apart from _ratios/_offsets and the two lru caches is what the fresh-process comparison validates"])
 
-main()
+guarded(main, "C08")
